@@ -545,6 +545,9 @@ fn main() {
     }
     let mut n_hang = 0u64;
     let mut n_fw = 0u64;
+    let mut n_mech = 0u64;
+    // --mech-out: the fired / ev / act / exit records of the runs SimMech models completely
+    let mut mech_out = arg(&args, "--mech-out").map(|p| std::io::BufWriter::new(std::fs::File::create(p).unwrap()));
     // --fw-out: also write the embedded frameworks' traces (composition with Framework.tla)
     let mut fw_out = arg(&args, "--fw-out").map(|p| std::io::BufWriter::new(std::fs::File::create(p).unwrap()));
     for (id, (sc, light)) in list.into_iter().enumerate() {
@@ -622,6 +625,24 @@ fn main() {
                         }
                     }
                 }
+                if let Some(mf) = mech_out.as_mut() {
+                    // mechanism view: scenarios SimMech models completely (no pps limit, no aggregate delay)
+                    if sc.pps.is_none() && !hook.iter().any(|h| h["k"] == "agg") {
+                        writeln!(mf, "{}", lines[0]).unwrap();
+                        writeln!(mf, "{}", lines[1]).unwrap();
+                        for h in hook.iter() {
+                            let k = h["k"].as_str().unwrap_or("");
+                            if k == "fired" || k == "ev" || k == "exit" {
+                                writeln!(mf, "{}", h).unwrap();
+                            } else if k == "act" {
+                                let mut a = h.clone();
+                                a.as_object_mut().unwrap().remove("fa");
+                                writeln!(mf, "{}", a).unwrap();
+                            }
+                        }
+                        n_mech += 1;
+                    }
+                }
                 lines.extend(hook.into_iter().filter(|h| h["k"] != "fw"));
                 lines.push(json!({"k": "out", "evs": full}));
                 // the same run again: reproducible?
@@ -686,10 +707,13 @@ fn main() {
     if let Some(fwf) = fw_out.as_mut() {
         fwf.flush().unwrap();
     }
+    if let Some(mf) = mech_out.as_mut() {
+        mf.flush().unwrap();
+    }
     println!(
         "{}",
         json!({"scenarios": scenarios, "written": n_written, "events": n_ev, "actions": n_act,
-               "panics": n_panic, "sub_microsecond_skipped": n_subus, "directed": n_directed, "hangs": n_hang, "framework_traces": n_fw})
+               "panics": n_panic, "sub_microsecond_skipped": n_subus, "directed": n_directed, "hangs": n_hang, "framework_traces": n_fw, "mechanism_traces": n_mech})
     );
     // threads stuck in a simulation are abandoned
     std::process::exit(0);
